@@ -229,8 +229,9 @@ case "${1:-}" in
     mk_scratch; prep_harness; build_ferret; [ -n "$NEED" ] && build_cdrv "$NEED"; build_tests
     mkdir -p "$S/replay"
     VERIF_PROP="$id" VERIF_REPLAY="$dir" VERIF_REPLAY_FORCE=pass VERIF_SCRATCH_DIR="$S/replay" "$S/props.test" -test.run '^TestReplay$' -test.v 2>&1 | tee "$S/replay.log" | grep -v '^=== \|^--- \|^PASS\|^ok'
-    if grep -q '^REPLAY .* fail ' "$S/replay.log"; then echo "VIOLATION property=$id replay=$dir"; exit 1; fi
-    if grep -q '^REPLAY .* infra ' "$S/replay.log"; then exit 2; fi
+    # fields: REPLAY <dir> <expected> <outcome> <key> :: <what>
+    if awk '$1=="REPLAY" && $4=="fail"{f=1} END{exit f?0:1}' "$S/replay.log"; then echo "VIOLATION property=$id replay=$dir"; exit 1; fi
+    if awk '$1=="REPLAY" && $4=="infra"{f=1} END{exit f?0:1}' "$S/replay.log"; then exit 2; fi
     exit 0 ;;
   C[0-9][0-9])
     main_check "$1" "${2:-${VERIF_TIER:-quick}}" ;;
